@@ -128,6 +128,32 @@ Theorem C17_watch_times_gap2_example :
 Proof. exact watch_times_gap2. Qed.
 Print Assumptions C17_watch_times_gap2_example.
 
+(* THE WHOLE STREAM, unbounded: plain configuration without threshold (every call recorded), both shapes, ANY
+   read= triggers (5 kinds, perf available or not), -W cpu and/or -W var, argument capture <= 684 bytes, EVERY
+   complete history of hooks that are at least 2 ns apart and nest within -D / --max-stack, every sequence of
+   observed values: the stream equals the hook-by-hook specification [hspec] - each hook contributes
+       entry of f:  <this hook's watch events, stamped -1 ns>  ENTRY f  READ_k..
+       exit of f:   <this hook's watch events, stamped -1 ns>  DIFF_k..  EXIT f
+   (only the thread's first hook has its watch events, stamped +1 ns, behind ENTRY f READ_k..); which watch
+   events a hook generates is save_watchpoint's decision (C17_watch_cpu_iff_changed, C17_watch_var_iff_changed,
+   MAX_EVENT counted since the last exit hook).  Hence: read right after entry, diff right before exit with the
+   differences, watch events at the hook that observed the change, every stamp inside the enclosing call. *)
+Theorem C17_stream_spec : forall gd ms sh rd pm wc wv es, wf gd ms es 0 0 -> endn es 0 = 0%nat ->
+  map oideal (xout (snd (xexec (xplainw 0 gd ms sh rd pm wc wv) es xstart))) = hspec (xplainw 0 gd ms sh rd pm wc wv) es.
+Proof. exact stream_spec. Qed.
+Print Assumptions C17_stream_spec.
+
+Theorem C17_stream_spec_example :
+  wf 16 16 sx_run 0 0 /\ endn sx_run 0 = 0%nat /\
+  hspec sx_cfg sx_run =
+  [OR (100, 0, 5, 0, 0); OE 100 EVENT_ID_READ_PAGE_FAULT [0; 5]; OE 101 C17_EVENT_ID_WATCH_CPU [1];
+   OE 101 C17_EVENT_ID_WATCH_CPU [2]; OR (102, 0, 5, 1, 256);
+   OE 103 C17_EVENT_ID_WATCH_VAR [8]; OR (104, 1, 5, 1, 256);
+   OE 199 C17_EVENT_ID_WATCH_CPU [3]; OE 199 C17_EVENT_ID_WATCH_VAR [7]; OE 200 EVENT_ID_DIFF_PAGE_FAULT [0; 4];
+   OR (200, 1, 5, 0, 0)].
+Proof. exact stream_spec_example. Qed.
+Print Assumptions C17_stream_spec_example.
+
 (* -W cpu at the level of the stream, bounded but exhaustive: for EVERY history of at most 4 calls (both
    shapes with hooks 2 ns apart, -pg also 3 ns), the chains of 5 and 6 nested calls, and EVERY change pattern
    of the observed cpu number, the stream equals the hook-by-hook specification [wspec] - an event iff the
